@@ -2885,17 +2885,22 @@ func (uconn *UConn) ApplyPreset(p *ClientHelloSpec) error {
 				}
 
 				if curveID == X25519MLKEM768 || curveID == X25519Kyber768Draft00 {
-					ecdheKey, err := generateECDHEKey(uconn.config.rand(), X25519)
-					if err != nil {
-						return err
-					}
-					seed := make([]byte, mlkem.SeedSize)
-					if _, err := io.ReadFull(uconn.config.rand(), seed); err != nil {
-						return err
-					}
-					mlkemKey, err := mlkem.NewDecapsulationKey768(seed)
-					if err != nil {
-						return err
+					// a second hybrid share reuses the keys of the first: only one pair is kept
+					mlkemKey := uconn.HandshakeState.State13.KeyShareKeys.Mlkem
+					ecdheKey := uconn.HandshakeState.State13.KeyShareKeys.MlkemEcdhe
+					if mlkemKey == nil || ecdheKey == nil {
+						ecdheKey, err = generateECDHEKey(uconn.config.rand(), X25519)
+						if err != nil {
+							return err
+						}
+						seed := make([]byte, mlkem.SeedSize)
+						if _, err := io.ReadFull(uconn.config.rand(), seed); err != nil {
+							return err
+						}
+						mlkemKey, err = mlkem.NewDecapsulationKey768(seed)
+						if err != nil {
+							return err
+						}
 					}
 
 					if curveID == X25519Kyber768Draft00 {
